@@ -24,6 +24,7 @@ THEOREMS = [
     'CpProofs.C20.C20_one_worker',
     'CpProofs.C20.C20_at_most_once_after_stop',
     'CpProofs.C20.C20_graceful_leaves_one',
+    'CpProofs.C20.C20_cancelled_worker_terminates',
     'CpProofs.C20.C20_stop_joins_nondaemon',
     'CpProofs.C20.C20_controller_never_crashes',
     'CpProofs.C20.C20_one_worker_partial',
@@ -166,8 +167,17 @@ class RunM:
         self.journal = []          # (time, worker tid)
         self.rets = []             # (call index, call, begin time, return time)
         self.wstart = {}           # worker tid -> time it was started
-        self.mon = plugins.Monitor(self.bus, self._cb, frequency=(1 if case['freq'] else 0), name='m')
+        if case.get('ar'):
+            # the Autoreloader, as far as it is a Monitor: it watches no file (match nothing), its
+            # own run() is called behind the journalling probe
+            self.mon = plugins.Autoreloader(self.bus, frequency=(1 if case['freq'] else 0), match='^$')
+            poll = self.mon.callback
+            self.mon.callback = lambda: (self._cb(), poll())
+        else:
+            self.mon = plugins.Monitor(self.bus, self._cb, frequency=(1 if case['freq'] else 0), name='m')
         codes, entry = _bt_codes(plugins)
+        if case.get('ar'):
+            codes.append(plugins.Autoreloader.start.__code__)
         self.s = S.Sched(codes, entry, opcodes=bool(case.get('op')))
         if not case['daemon']:
             self.s.before_start = lambda thr: setattr(thr, 'daemon', False)
@@ -567,8 +577,8 @@ def full_sched(case):
 
 
 def model_line(case):
-    if case.get('op'):
-        return 'op ' + json.dumps(case, sort_keys=True)
+    if case.get('op') or case.get('ar'):
+        return 'oracle-only ' + json.dumps(case, sort_keys=True)
     k = case['k']
     sched = ','.join(full_sched(case)) or '-'
     if k == 'M':
@@ -579,8 +589,8 @@ def model_line(case):
 
 
 def comparable(case):
-    if case.get('op'):
-        return False            # bytecode-granular runs are judged by the oracle only
+    if case.get('op') or case.get('ar'):
+        return False            # bytecode-granular runs and Autoreloader runs: oracle only
     if case['k'] == 'T':
         if any(not ops for ops in case['scripts']):
             return False
@@ -649,7 +659,7 @@ def check_cases(ctx, cases, compare=True):
     for case, (out, bad, sched, nthreads) in zip(cases, results):
         key = model_line(case)
         ctx.case(case, nontrivial=nthreads >= 2, key=key)
-        ctx.count('scenario:' + case['k'] + ('/bytecode' if case.get('op') else ''))
+        ctx.count('scenario:' + case['k'] + ('/bytecode' if case.get('op') else '') + ('/Autoreloader' if case.get('ar') else ''))
         ctx.count('%s:steps<=%d' % (case['k'], 20 * (1 + len(sched) // 20)))
         if case['k'] == 'M':
             ctx.count('M:calls=' + ','.join(case['calls']))
@@ -815,6 +825,9 @@ def all_cases(ctx):
         if calls != main_seq:
             cases += list(gen_M_systematic(calls, 1, 1, range(0, 30, 3 if quick else 1), (0, 2, 7)))
     cases += list(gen_M_systematic(['start', 'stop'], 0, 1, (0, 3), (0,)))
+    for daemon in (1, 0):
+        for c in gen_M_systematic(main_seq, 1, daemon, range(0, 56, 2 if quick else 1), (0, 2, 6)):
+            cases.append(dict(c, ar=1))
     for calls in (main_seq, ['start', 'graceful', 'stop'], ['start', 'stop', 'start']):
         cases += list(gen_M_two(calls, 1, ctx.rng.choice([0, 1]), ctx.rng, 40 if quick else 1500))
     # B
@@ -861,14 +874,32 @@ def search(ctx, around=None):
         check_cases(ctx, gen_random(ctx, kind, 1500), compare=False)
 
 
+def _show(stream, limit=90):
+    body = stream.split('#')[0]
+    steps = [x for x in body.split('|') if x.startswith('+')]
+    for x in steps[:limit]:
+        print('     ' + x)
+    if len(steps) > limit:
+        print('     ... %d more effective steps' % (len(steps) - limit))
+    if '#' in stream:
+        print('     journal: ' + stream.split('#', 1)[1])
+
+
 def replay(ctx, case):
+    """Re-run one case on the current tree; print the effective steps of both sides."""
+    print('protocol of the live tree:', modes())
+    print('case   :', json.dumps(case)[:3000])
     out, bad, sched, _n = execute(case)
-    print('case   :', json.dumps(case)[:2000])
-    print('impl   :', out[-1500:])
+    if out:
+        print('impl (snapshot after every effective step):')
+        _show(out)
     if comparable(case):
         m = ctx.model([model_line(case)])
         if m:
-            print('model  :', m[0][-1500:])
             if m[0] != out:
-                print('first difference:', first_diff(out, m[0]))
+                print('model differs; first difference:', first_diff(out, m[0]))
+                print('model:')
+                _show(m[0])
+            else:
+                print('model  : identical snapshot stream (%d steps)' % len(out.split('|')))
     check_cases(ctx, [case])
